@@ -129,12 +129,28 @@ package types
 //@   ensures wf_ctx(ctx) && tx_same(ctx.Tx)
 //@   ensures result == nil && ctx.Exec ==> ctx.Sender.Nonce == old(ctx.Sender.Nonce) + 1                    [C04]
 //@   ensures result != nil ==> ctx.Sender.Nonce == old(ctx.Sender.Nonce) && u(ctx.Sender.Balance) == old(u(ctx.Sender.Balance))   [C04,C05]
-//@   ensures result == nil ==> ctx.GasUsed <= ctx.Tx.Gas                                                    [C16]
+//@   ensures result == nil ==> ctx.GasUsed <= ctx.Tx.Gas || ctx.GasUsed == old(ctx.GasUsed)                 [C16]
 //@   ensures result != xerrors.ErrUnknownTrxType                                                            [C04,C16]
 //@   ensures old(ctx.Receiver.Code) != nil ==> ctx.Receiver.Code != nil                                     [C04,C16]
 
 //@ func (h IAccountHandler) SetAccountCommittable(acct, exec)
 //@   requires acct != nil
-//@   modifies everything
-//@   preserves Account.*, Trx.*, TrxContext.*, govGasPrice, govMinTrxGas, mem(uint256.Int)
+//@   modifies allmaps(memItems.gotItems)
 //@   ensures result == nil                                                                                  [C05]
+
+// ---- account lookup through an IAccountHandler --------------------------------------------------
+// acctof(h, address, exec) names the account object a handler hands out for an address: the ledger
+// caches it, so repeated lookups within a block return the same object.
+
+//@ func (h IAccountHandler) FindOrNewAccount(addr, exec)
+//@   modifies allmaps(memItems.gotItems), itemkey, itemenc
+//@   allocates Account, uint256.Int
+//@   ensures items_same()
+//@   ensures result != nil && result == acctof(h, content(addr), exec ? 1 : 0) && result.Balance != nil && balowner(result.Balance) == result && isbal(result.Balance)
+//@   ensures result != nil && !fresh(result) ==> result.Nonce == old(result.Nonce) && u(result.Balance) == old(u(result.Balance)) && result.Balance == old(result.Balance)
+
+//@ func (h IAccountHandler) FindAccount(addr, exec)
+//@   modifies allmaps(memItems.gotItems), itemkey, itemenc
+//@   allocates Account, uint256.Int
+//@   ensures items_same()
+//@   ensures result != nil ==> result == acctof(h, content(addr), exec ? 1 : 0) && result.Balance != nil && balowner(result.Balance) == result && isbal(result.Balance)
